@@ -201,6 +201,50 @@ pub fn custom_ext(c: &CustomExtSpec) -> CustomExtension {
 
 pub fn cert_params(s: &CertSpec) -> Result<CertificateParams, String> {
 	let mut p = CertificateParams::default();
+	cert_params_onto(&mut p, s, false)?;
+	Ok(p)
+}
+
+/// Turns an existing parameter object (whatever it held, whatever was done with it before) into
+/// the one `s` describes, by assigning the public fields or - `in_place` - by editing the
+/// collections and the name where they stand.
+pub fn cert_params_onto(p: &mut CertificateParams, s: &CertSpec, in_place: bool) -> Result<(), String> {
+	if in_place {
+		let new = cert_params(s)?;
+		p.not_before = new.not_before;
+		p.not_after = new.not_after;
+		p.serial_number = new.serial_number;
+		p.subject_alt_names.clear();
+		p.subject_alt_names.extend(new.subject_alt_names);
+		let old_types: Vec<rcgen::DnType> = p.distinguished_name.iter().map(|(t, _)| t.clone()).collect();
+		for t in old_types {
+			p.distinguished_name.remove(t);
+		}
+		for (t, v) in new.distinguished_name.iter() {
+			p.distinguished_name.push(t.clone(), v.clone());
+		}
+		p.is_ca = new.is_ca;
+		p.key_usages.clear();
+		p.key_usages.extend(new.key_usages);
+		p.extended_key_usages.clear();
+		p.extended_key_usages.extend(new.extended_key_usages);
+		match (&mut p.name_constraints, new.name_constraints) {
+			(Some(old), Some(n)) => {
+				old.permitted_subtrees.clear();
+				old.permitted_subtrees.extend(n.permitted_subtrees);
+				old.excluded_subtrees.clear();
+				old.excluded_subtrees.extend(n.excluded_subtrees);
+			},
+			(slot, n) => *slot = n,
+		}
+		p.crl_distribution_points.clear();
+		p.crl_distribution_points.extend(new.crl_distribution_points);
+		p.custom_extensions.clear();
+		p.custom_extensions.extend(new.custom_extensions);
+		p.use_authority_key_identifier_extension = new.use_authority_key_identifier_extension;
+		p.key_identifier_method = new.key_identifier_method;
+		return Ok(());
+	}
 	p.not_before = time(&s.not_before).ok_or("unrepresentable not_before")?;
 	p.not_after = time(&s.not_after).ok_or("unrepresentable not_after")?;
 	p.serial_number = s.serial.as_ref().map(|b| SerialNumber::from_slice(&b.0));
@@ -224,7 +268,7 @@ pub fn cert_params(s: &CertSpec) -> Result<CertificateParams, String> {
 	p.custom_extensions = s.custom_exts.iter().map(custom_ext).collect();
 	p.use_authority_key_identifier_extension = s.use_aki;
 	p.key_identifier_method = kid(&s.kid)?;
-	Ok(p)
+	Ok(())
 }
 
 pub fn reason(r: ReasonSpec) -> RevocationReason {
